@@ -131,6 +131,7 @@ Qed.
 (* ---- reuse of an unresolved use ------------------------------------------------------------------------ *)
 Lemma find_reuse_sim st home x :
   forall l i, (forall v, In v l -> 1 <= vuses (vget st v)) ->
+  (forall v, In v l -> vd st v = 0 -> argp st home v = false) ->
   match find_reuse st x l i with
   | Some (j, uv) =>
       a_find_reuse x (map (uent_of st home) l) i = Some j /\ (i <= j)%nat /\
@@ -138,25 +139,26 @@ Lemma find_reuse_sim st home x :
   | None => a_find_reuse x (map (uent_of st home) l) i = None
   end.
 Proof.
-  induction l as [|v t IH]; intros i Hu; [reflexivity|].
+  induction l as [|v t IH]; intros i Hu Ha; [reflexivity|].
   cbn [find_reuse map a_find_reuse].
   assert (Huv : 1 <= vuses (vget st v)) by (apply Hu; left; reflexivity).
   replace (0 <? vuses (vget st v)) with true by (symmetry; apply Z.ltb_lt; lia). cbn [andb].
   unfold NoDecl.
   assert (Eu : uent_of st home v
-               = if vdecl (vget st v) =? 0 then UPend (vname (vget st v)) else UPass (vname (vget st v)) (home v))
-    by reflexivity.
+               = if vdecl (vget st v) =? 0 then UPend (vname (vget st v)) else UPass (vname (vget st v)) (home v)).
+  { unfold uent_of. destruct (Z.eqb_spec (vdecl (vget st v)) 0) as [E|E]; [|reflexivity].
+    rewrite (Ha v (or_introl eq_refl) E). reflexivity. }
   rewrite Eu. clear Eu.
   destruct (Z.eqb_spec (vdecl (vget st v)) 0) as [Ed|Ed]; cbn [andb].
   - destruct (Z.eqb_spec (vname (vget st v)) x) as [En|En].
     + split; [reflexivity|]. split; [lia|]. split; [replace (i - i)%nat with O by lia; reflexivity|].
       split; [exact Ed|exact En].
-    + specialize (IH (S i) (fun w Hw => Hu w (or_intror Hw))).
+    + specialize (IH (S i) (fun w Hw => Hu w (or_intror Hw)) (fun w Hw => Ha w (or_intror Hw))).
       destruct (find_reuse st x t (S i)) as [[j uv]|].
       * destruct IH as (H1 & H2 & H3 & H4 & H5). split; [exact H1|]. split; [lia|].
         split; [replace (j - i)%nat with (S (j - S i)) by lia; exact H3|]. split; assumption.
       * exact IH.
-  - specialize (IH (S i) (fun w Hw => Hu w (or_intror Hw))).
+  - specialize (IH (S i) (fun w Hw => Hu w (or_intror Hw)) (fun w Hw => Ha w (or_intror Hw))).
     destruct (find_reuse st x t (S i)) as [[j uv]|].
     + destruct IH as (H1 & H2 & H3 & H4 & H5). split; [exact H1|]. split; [lia|].
       split; [replace (j - i)%nat with (S (j - S i)) by lia; exact H3|]. split; assumption.
